@@ -245,7 +245,7 @@ def generate(repo):
                 raise Refuse('%s.%s is not a function' % (cls, f))
             params, body = ex.function(node)
             coqname = 'tbl_%s_%s' % (cls, f.strip('_'))
-            lines.append('(* %s: %s.%s, line %d *)' % (path, cls, f, node.lineno))
+            lines.append('(* %s: %s.%s *)' % (path, cls, f))
             lines.append('Definition %s : fn := {| fn_params := [%s]; fn_body := [' % (coqname, '; '.join(params)))
             lines.append(';\n'.join('  ' + b for b in body))
             lines.append(']|}.\n')
